@@ -262,6 +262,9 @@ class Engine:
     # ------------------------------------------------------------------ choosing
     def choose(self):
         m = self.model
+        if getattr(self, "force_next", None):
+            k, self.force_next = self.force_next, None
+            return k
         avail = []
         objs, grps, data = m.of_kind("object"), m.of_kind("group"), m.of_kind("data")
         for k, w in self.weights.items():
@@ -900,7 +903,8 @@ class Engine:
             self._learn_live(new, t)
 
     def op_remove(self, op):
-        n = self.pick_any()
+        n = self.model.nodes.get(getattr(self, "next_victim", None) or "") or self.pick_any()
+        self.next_victim = None
         if n.dkind == "auto":
             raise ExpectedRefusal("auto child")
         via = self.rng.choice(["workspace", "parent"])
@@ -1055,6 +1059,20 @@ class Engine:
         self.last_footprint["content"].add("Objects/" + br(o.uid))
         self.ent(o.uid).add_data_to_group([self.ent(member)], name)
         o.pgs[name] = [member]
+        if not self.script and self.rng.random() < 0.4:
+            # a fan: the same data becomes the only member of one more group and joins a group with other members; it is the
+            # next entity to be removed (every group it was in loses it, the groups it was alone in go with it)
+            name2 = self.new_name("pg")
+            self.ent(o.uid).add_data_to_group([self.ent(member)], name2)
+            o.pgs[name2] = [member]
+            mates = [c for c in self._pg_candidates(o) if c.uid != member and c.assoc == self.model.nodes[member].assoc]
+            if mates:
+                name3 = self.new_name("pg")
+                mate = self.rng.choice(mates)
+                self.ent(o.uid).add_data_to_group([self.ent(member), self.ent(mate.uid)], name3)
+                o.pgs[name3] = [member, mate.uid]
+            self.rec.see("data-fanned-into-several-groups")
+            self.next_victim, self.force_next = member, "remove"
 
     def op_pg_create_empty(self, op):
         o = self.rng.choice(self.model.of_kind("object"))
